@@ -396,7 +396,17 @@ def comprehension(I, elt, gens, kind):
                     I.assign(gg.target, x)
                     if all(I.decide(I.eval(c)) for c in gg.ifs):
                         rec(gi + 1)
-            rec(0)
+            try:
+                rec(0)
+            except Unsupported as e:
+                # an inner generator ranges over a sequence of symbolic length: the mixed-radix form covers nested ranges
+                if "symbolic length" in str(e) and len(gens) > 1 and not any(gg.ifs for gg in gens) and not out:
+                    I.frames.pop()
+                    try:
+                        return _nested_range_comprehension(I, elt, gens, kind)
+                    finally:
+                        I.frames.append(child)
+                raise
         finally:
             I.frames.pop()
         return out
